@@ -224,6 +224,10 @@ pub struct Gen {
     pending_imports: Vec<String>,
     marker: u32,
     pub with_markers: bool,
+    /// distinguishes synthetic modules of different generators that feed one importer
+    pub module_tag: String,
+    /// the statement just generated is expected to fail (re-import of a still broken module)
+    expect_fail: Option<FaultKind>,
 }
 
 fn dim_is_scalar(d: &DimV) -> bool {
@@ -267,6 +271,8 @@ impl Gen {
             pending_imports: vec![],
             marker: 0,
             with_markers: false,
+            module_tag: String::new(),
+            expect_fail: None,
         }
     }
 
@@ -304,6 +310,10 @@ impl Gen {
             allow_imports: rng.chance(0.8),
             real_modules,
         }
+    }
+
+    pub fn next_id_value(&self) -> u32 {
+        self.next_id
     }
 
     pub fn set_id_offset(&mut self, off: u32) {
@@ -856,8 +866,8 @@ impl Gen {
             }
         }
         if cands.is_empty() {
-            // cannot happen when the type was taken from an existing function; fall back
-            return "id".into();
+            // no function of this type exists (any more): the statement is regenerated
+            return "__NOFN__".into();
         }
         self.rng.pick(&cands).clone()
     }
@@ -878,6 +888,48 @@ impl Gen {
             .collect();
         self.rng.shuffle(&mut fields);
         format!("{} {{ {} }}", s.name, fields.join(", "))
+    }
+
+    /// A closed literal of the given type (no identifiers other than prelude units).
+    fn literal_of(&mut self, t: &Ty) -> Option<String> {
+        Some(match t {
+            Ty::Dim(d) => {
+                // only base SI units: user units may not exist where the probe is evaluated
+                if d[3..].iter().any(|x| *x != 0) {
+                    return None;
+                }
+                let m = self.rng.range(1, 9);
+                if dim_is_scalar(d) {
+                    format!("{m}")
+                } else {
+                    let mut parts = vec![];
+                    for i in 0..3 {
+                        if d[i] != 0 {
+                            parts.push(format!("{}^({})", BASE_UNIT_NAMES[i], d[i]));
+                        }
+                    }
+                    format!("({m} * {})", parts.join("*"))
+                }
+            }
+            Ty::Bool => "true".into(),
+            Ty::Str => "\"lit\"".into(),
+            Ty::List(e) => format!("[{}]", self.literal_of(e)?),
+            Ty::Func(..) | Ty::Struct(_) => return None,
+        })
+    }
+
+    fn decorators(&mut self) -> String {
+        let mut d = String::new();
+        if self.rng.chance(0.12) {
+            d.push_str(&format!("@name(\"N{}\")\n", self.rng.range(0, 99)));
+        }
+        if self.rng.chance(0.08) {
+            d.push_str(&format!("@url(\"https://example.com/{}\")\n", self.rng.range(0, 99)));
+        }
+        if self.rng.chance(0.1) {
+            d.push_str(&format!("@description(\"D{} text\")\n", self.rng.range(0, 99)));
+        }
+        d
     }
 
     // ---------------------------------------------------------------- statements
@@ -908,6 +960,29 @@ impl Gen {
         }
     }
 
+    /// `statement`, regenerated when it needed a function value that does not exist.
+    fn statement_checked(&mut self, k: usize, gi: &mut GenInput) -> String {
+        for attempt in 0..4 {
+            let saved = self.sym.clone();
+            let mut g2 = GenInput::default();
+            let kk = if attempt < 2 { k } else { 0 };
+            let s = self.statement(kk, &mut g2);
+            if !s.contains("__NOFN__") {
+                gi.contains.extend(g2.contains.iter());
+                gi.defines.extend(g2.defines);
+                gi.set_modules.extend(g2.set_modules);
+                gi.features.extend(g2.features.iter());
+                gi.probes.extend(g2.probes);
+                gi.unavailable.extend(g2.unavailable);
+                return s;
+            }
+            self.sym = saved;
+        }
+        let name = self.fresh("v");
+        self.record_var(&name, Ty::Dim(SCALAR), true, gi);
+        format!("let {name} = {}", self.rng.range(1, 9))
+    }
+
     /// Generate one statement of kind `k` (may fall back to a plain `let`).
     fn statement(&mut self, k: usize, gi: &mut GenInput) -> String {
         let depth = self.rng.range(0, 3) as u32;
@@ -924,10 +999,11 @@ impl Gen {
                 let e = self.expr(&ty, depth, pos);
                 let is_dim = matches!(ty, Ty::Dim(_));
                 let is_list = matches!(ty, Ty::List(_));
+                let deco = self.decorators();
                 let text = if k == 1 && !matches!(ty, Ty::Func(..)) {
-                    format!("let {name}: {} = {e}", self.ty_text(&ty))
+                    format!("{deco}let {name}: {} = {e}", self.ty_text(&ty))
                 } else {
-                    format!("let {name} = {e}")
+                    format!("{deco}let {name} = {e}")
                 };
                 if matches!(ty, Ty::Func(..)) {
                     gi.features.insert("function-value");
@@ -993,7 +1069,11 @@ impl Gen {
                         pos: true,
                         local: true,
                     });
-                    where_clause = format!(" where wa = {we}");
+                    where_clause = if self.rng.chance(0.3) {
+                        format!(" where wa = {we} and wb = {}", self.rng.range(1, 9))
+                    } else {
+                        format!(" where wa = {we}")
+                    };
                 }
                 // function bodies must not call the function being (re)defined (self reference
                 // as a value in a first definition is a known single-input crash, DESIGN §6)
@@ -1014,14 +1094,15 @@ impl Gen {
                         }
                     })
                     .collect();
+                let deco = self.decorators();
                 let text = if annotated {
                     format!(
-                        "fn {name}({}) -> {} = {body}{where_clause}",
+                        "{deco}fn {name}({}) -> {} = {body}{where_clause}",
                         ps.join(", "),
                         self.ty_text(&ret)
                     )
                 } else {
-                    format!("fn {name}({}) = {body}{where_clause}", ps.join(", "))
+                    format!("{deco}fn {name}({}) = {body}{where_clause}", ps.join(", "))
                 };
                 gi.contains.insert("fn");
                 gi.defines.push((name.clone(), "function"));
@@ -1163,9 +1244,12 @@ impl Gen {
                 let mut deco = String::new();
                 let mut short = None;
                 let mut prefixes = false;
+                deco.push_str(&self.decorators());
                 if self.rng.chance(0.4) {
                     prefixes = true;
                     deco.push_str("@metric_prefixes\n");
+                } else if self.rng.chance(0.15) {
+                    deco.push_str("@binary_prefixes\n");
                 }
                 if self.rng.chance(0.4) {
                     let s = format!("{u}s");
@@ -1220,6 +1304,13 @@ impl Gen {
                         .join(", ")
                 );
                 gi.contains.insert("struct");
+                let lits: Option<Vec<String>> = fields
+                    .iter()
+                    .map(|(f, t)| self.literal_of(t).map(|l| format!("{f}: {l}")))
+                    .collect();
+                if let Some(l) = lits {
+                    gi.probes.push(format!("{name} {{ {} }}", l.join(", ")));
+                }
                 self.sym.structs.push(StructS { name, fields });
                 text
             }
@@ -1320,8 +1411,22 @@ impl Gen {
                 match kind {
                     "module" => {
                         gi.contains.insert("use");
-                        self.pending_imports.push(name.clone());
+                        if self.modules.get(&name).map(|m| !m.healthy).unwrap_or(false) {
+                            // still broken: importing it again must fail again, the same way
+                            self.expect_fail = Some(FaultKind::BrokenModule);
+                        } else {
+                            self.pending_imports.push(name.clone());
+                        }
                         format!("use {name}")
+                    }
+                    "unit" if self.sym.units.iter().any(|u| u.name == name || u.short.as_deref() == Some(name.as_str())) => {
+                        // it exists by now: use it
+                        gi.contains.insert("expr");
+                        self.sym.ans = Some(Ty::Dim([1, 0, 0, 0, 0, 0]));
+                        format!("{} {name} + 1 m", self.rng.range(1, 9))
+                    }
+                    "dimension" if self.sym.dims.iter().any(|d| d.0 == name) || self.sym.named_dims.iter().any(|d| d.0 == name) => {
+                        return self.statement(0, gi);
                     }
                     "unit" => {
                         // re-define the unit name that a failed input tried to define
@@ -1352,6 +1457,13 @@ impl Gen {
                     "dimension" => {
                         gi.contains.insert("dimension");
                         gi.defines.push((name.clone(), "dimension"));
+                        if self.sym.dims.len() < 3 {
+                            let idx = 3 + self.sym.dims.len();
+                            self.sym.dims.push((name.clone(), idx));
+                        } else {
+                            // no free slot in the exponent vector: remember it as an opaque name
+                            self.sym.named_dims.push((name.clone(), [0; NB]));
+                        }
                         format!("dimension {name}")
                     }
                     _ => {
@@ -1372,7 +1484,7 @@ impl Gen {
     /// Create a synthetic module (healthy, or broken in one of four ways).
     fn make_module(&mut self, broken: Option<u32>) -> String {
         self.next_id += 1;
-        let id = self.next_id;
+        let id = format!("{}{}", self.module_tag, self.next_id);
         let name = format!("sim::m{id}");
         let mut lines: Vec<String> = vec![];
         let mut deps = vec![];
@@ -1634,6 +1746,17 @@ impl Gen {
                 }
                 for v in self.sym.vars.iter().filter(|v| !v.local) {
                     opts.push(format!("unit {}: Length = 2 m", v.name));
+                    opts.push(format!("fn {}(pa) = pa", v.name));
+                }
+                for f in &self.sym.fns {
+                    opts.push(format!("let {} = 1", f.name));
+                    opts.push(format!("unit {}: Length = 2 m", f.name));
+                }
+                for st in &self.sym.structs {
+                    opts.push(format!("struct {} {{ fz: Scalar }}", st.name));
+                }
+                for d in &self.sym.dims {
+                    opts.push(format!("dimension {}", d.0));
                 }
                 self.rng.pick(&opts).clone()
             }
@@ -1786,7 +1909,8 @@ impl Gen {
                     if kind == FaultKind::VmFault {
                         // an ordinary statement; the driver arms the VM fault
                         let k = self.pick_kind();
-                        stmts.push(self.statement(k, &mut gi));
+                        stmts.push(self.statement_checked(k, &mut gi));
+                        self.expect_fail = None;
                     } else {
                         let mut scratch = GenInput::default();
                         let s = self.fault_statement(&kind, &mut scratch);
@@ -1801,7 +1925,8 @@ impl Gen {
                 } else {
                     let k = self.pick_kind();
                     let mut g2 = GenInput::default();
-                    let s = self.statement(k, &mut g2);
+                    let s = self.statement_checked(k, &mut g2);
+                    self.expect_fail = None;
                     if i < pos {
                         gi.contains.extend(g2.contains.iter());
                     }
@@ -1825,9 +1950,14 @@ impl Gen {
                 self.recent_failed.drain(..cut);
             }
         } else {
-            for _ in 0..n {
+            for i in 0..n {
                 let k = self.pick_kind();
-                stmts.push(self.statement(k, &mut gi));
+                let s = self.statement_checked(k, &mut gi);
+                if let Some(kind) = self.expect_fail.take() {
+                    gi.fault = Some(kind);
+                    gi.fault_pos = Some(i);
+                }
+                stmts.push(s);
             }
         }
         gi.n_statements = stmts.len();
